@@ -2,6 +2,7 @@ import EmbitModel.Driver.Descriptor
 import EmbitModel.Model.Cost
 import EmbitModel.Driver.Psbt
 import EmbitModel.Model.CostBin
+import EmbitModel.Model.ViewCost
 /-
   Line protocol for C17 (text parsers): the cost companions of `Model/Cost.lean` on the driver's key decoders.
     c17.desc TEXT   →  ok STREAMCALLS READFROMCALLS DEPTH ACCEPTED      (TEXT: hex of the ASCII bytes)
@@ -9,6 +10,9 @@ import EmbitModel.Model.CostBin
   and the instrumented byte parsers of `Model/CostBin.lean` (value part = `Tx.parse` / `Psbt.parse`, Props/C17Y):
     c17.txsteps BYTES        →  ok STEPS ACCEPTED
     c17.psbtsteps C BYTES    →  ok STEPS ACCEPTED                       (C: compress mode)
+    c17.lnvo OFF BYTES       →  ok ITERS STEPS VALUE|none               (`GlobalLTransactionView(s, OFF).num_vout_offset`)
+    c17.hashto L POS BYTES   →  ok ITERS STEPS 1|0                      (`PSETView._hash_to(h, L)` at POS; 1 = no exception)
+    c17.skipscope POS BYTES  →  ok ITERS STEPS NEWPOS|none              (`PSBTView._skip_scope` at POS)
 -/
 namespace Embit.Driver
 open Embit Embit.Model.Descriptor Embit.Model.Cost
@@ -34,6 +38,18 @@ def handleCost (op : String) (args : List String) : Option String :=
     let (c, b) ← runTok (do let c ← tokNat; let b ← tokBytes; pure (c, b)) args
     let q := Model.CostBin.psbtParseC concreteKeyOps Crypto.sha256 c b
     pure (joinToks ["ok", toString q.2, if q.1.isSome then "1" else "0"])
+  | "c17.lnvo" => do
+    let (off, b) ← runTok (do let c ← tokNat; let b ← tokBytes; pure (c, b)) args
+    let q := Model.ViewCost.numVoutOffsetC true b off
+    pure (joinToks ["ok", toString q.2.1, toString q.2.2, match q.1 with | some v => toString v | none => "none"])
+  | "c17.hashto" => do
+    let (l, pos, b) ← runTok (do let l ← tokNat; let p ← tokNat; let b ← tokBytes; pure (l, p, b)) args
+    let r := Model.ViewCost.hashToC b l pos
+    pure (joinToks ["ok", toString r.iters, toString r.steps, match r.out with | .done _ _ => "1" | _ => "0"])
+  | "c17.skipscope" => do
+    let (pos, b) ← runTok (do let c ← tokNat; let b ← tokBytes; pure (c, b)) args
+    let r := Model.ViewCost.skipScopeC b (b.length + 2) pos
+    pure (joinToks ["ok", toString r.iters, toString r.steps, match r.out with | .done _ p => toString p | _ => "none"])
   | _ => none
 
 end Embit.Driver
